@@ -76,8 +76,8 @@ VARIANTS = [
     fire('c10-no-notify', ['C10'], [(PR, "        self._repeated.items.append(value)\n        self._notify_splice(index, index, [value])", "        self._repeated.items.append(value)")], 'NOTIFY-POST'),
     fire('c10-wrong-range', ['C10'], [(PR, "        self._notify_splice(r.start, r.stop, [])", "        self._notify_splice(r.start, r.start, [])")], 'NOTIFY-ARGS'),
     fire('c10-raw-index', ['C10'], [(PR, "            index = indexes.range_from_index(index, len(self._repeated.items)).start\n", "")], 'SIGN-IDX'),
-    fire('c10-bisect-right', ['C10'], [(VP, "        rr = bisect.bisect_left(self._raw_indexes, r)", "        rr = bisect.bisect_right(self._raw_indexes, r)")], 'HANDLER-FORM'),
-    fire('c10-shift-off-by-one', ['C10'], [(VP, "        diff = len(values) - r + l", "        diff = len(values) - r + l + 1")], 'HANDLER-FORM'),
+    fire('c10-bisect-right', ['C10'], [(VP, "        rr = bisect.bisect_left(self._raw_indexes, r)", "        rr = bisect.bisect_right(self._raw_indexes, r)")], 'VIEW-LIVE'),
+    fire('c10-shift-off-by-one', ['C10'], [(VP, "        diff = len(values) - r + l", "        diff = len(values) - r + l + 1")], 'VIEW-LIVE'),
     fire('c10-rebind-indexes', ['C10'], [(VP, "        self._raw_indexes[:] = [\n", "        self._raw_indexes = [\n")], 'OWN-IDX'),
     silent('c10-twin-diff-form', ['C10'], [(VP, "        diff = len(values) - r + l", "        diff = len(values) - (r - l)")]),
     # ------------------------------------------------------------------ C05 / C03 tree and separators
@@ -523,4 +523,59 @@ VARIANTS += [
     silent('r7-twin-imuldiv-unpack', ['C13'], [(NE, "            self_mul_expr.raw_operands + (atom_expr,),\n            self_mul_expr.raw_ops + (mul_op,))", "            (*self_mul_expr.raw_operands, atom_expr),\n            (*self_mul_expr.raw_ops, mul_op))")]),
     fire('r7-editor-normpath-edit-file', ['C16'], [(ED, "        p = pathlib.Path(path)\n", "        p = pathlib.Path(os.path.normpath(path))\n")], 'ED-SPELL'),
     fire('r7-pop-clears-claimed', ['C05', 'C14'], [(IC, "    def auto_claim_comments(self) -> None:\n        super().auto_claim_comments()\n        self.claim_interleaving_comments()", "    def pop(self, index: int = -1):  # type: ignore[override]\n        value = super().pop(index)\n        if isinstance(value, BlockComment):\n            value.claimed = False\n        return value\n\n    def auto_claim_comments(self) -> None:\n        super().auto_claim_comments()\n        self.claim_interleaving_comments()")], 'FLAG-WRITERS'),
+]
+
+# ---------------------------------------------------------------------- round 8
+ILC = 'autobean_refactor/models/inline_comment.py'
+PUN = 'autobean_refactor/models/punctuation.py'
+MVI = 'autobean_refactor/models/meta_value_internal.py'
+NM = 'autobean_refactor/models/number_mul_expr.py'
+_HANDLER_INIT = ("    def __init__(\n            self,\n            raw_wrapper: properties.RepeatedNodeWrapper[Any],\n            raw_type: Type[_M] | tuple[Type[_M], ...],\n"
+                 "            raw_indexes: list[int],\n    ) -> None:\n        self._raw_wrapper = raw_wrapper\n        self._raw_type = raw_type\n        self._raw_indexes = raw_indexes\n")
+VARIANTS += [
+    fire('fix-revert-setitem-self', ['C03', 'C19'], [(PR, "            if value is item:\n                return  # a[i] *= 2 ends with a[i] = a[i]: already in place, same as replace_node\n", "")], 'NODE-SEM'),
+    fire('r8-inline-comment-marker-verbatim', ['C12', 'C09'], [(ILC, "        return f'; {value}' if value else ';'", "        if value.startswith(';'):\n            return value\n        return f'; {value}' if value else ';'")], 'TOK-RT'),
+    fire('r8-inline-comment-splitlines', ['C12'], [(ILC, "        return f'; {value}' if value else ';'", "        value = ' '.join(value.splitlines())\n        return f'; {value}' if value else ';'")], 'TOK-RT'),
+    fire('r8-inline-comment-rstrip', ['C12'], [(ILC, "        return raw_text.removeprefix(';').lstrip(' ')", "        return raw_text.removeprefix(';').strip(' ')")], 'TOK-RT'),
+    silent('r8-twin-inline-comment-two-returns', ['C12', 'C09'], [(ILC, "        return f'; {value}' if value else ';'", "        if not value:\n            return ';'\n        return '; ' + value")]),
+    fire('r8-indent-default-for-empty', ['C18'], [(PUN, "    RULE = 'INDENT'\n    DEFAULT = ' ' * 4\n", "    RULE = 'INDENT'\n    DEFAULT = ' ' * 4\n\n    @classmethod\n    def _format_value(cls, value: str) -> str:\n        return value or cls.DEFAULT\n")], 'TOK-RT'),
+    silent('r8-twin-indent-identity-override', ['C18', 'C12'], [(PUN, "    RULE = 'INDENT'\n    DEFAULT = ' ' * 4\n", "    RULE = 'INDENT'\n    DEFAULT = ' ' * 4\n\n    @classmethod\n    def _format_value(cls, value: str) -> str:\n        return '' + value\n")]),
+    fire('r8-print-builtin', ['C01', 'C02'], [(PRN, "    for token in model.tokens:\n        file.write(token.raw_text)\n", "    print(*(token.raw_text for token in model.tokens), sep='', end='', file=file)\n")], 'PRINT-ALL'),
+    silent('r8-twin-print-join', ['C01', 'C02'], [(PRN, "    for token in model.tokens:\n        file.write(token.raw_text)\n", "    file.write(''.join(token.raw_text for token in model.tokens))\n")]),
+    fire('r8-handler-dedupe-dataclass', ['C10'], [(PR, "        self._update_handlers.append(handler)\n", "        if handler not in self._update_handlers:\n            self._update_handlers.append(handler)\n"),
+                                                  (VP, "import bisect\n", "import bisect\nimport dataclasses\n"),
+                                                  (VP, "class _RepeatedValueWrapperUpdateHandler(properties.RepeatedNodeWrapperUpdateHandler):\n" + _HANDLER_INIT,
+                                                   "@dataclasses.dataclass\nclass _RepeatedValueWrapperUpdateHandler(properties.RepeatedNodeWrapperUpdateHandler):\n    _raw_wrapper: properties.RepeatedNodeWrapper[Any]\n    _raw_type: Type[_M] | tuple[Type[_M], ...]\n    _raw_indexes: list[int]\n")], 'VIEW-LIVE'),
+    silent('r8-twin-handler-dataclass', ['C10'], [(VP, "import bisect\n", "import bisect\nimport dataclasses\n"),
+                                                  (VP, "class _RepeatedValueWrapperUpdateHandler(properties.RepeatedNodeWrapperUpdateHandler):\n" + _HANDLER_INIT,
+                                                   "@dataclasses.dataclass\nclass _RepeatedValueWrapperUpdateHandler(properties.RepeatedNodeWrapperUpdateHandler):\n    _raw_wrapper: properties.RepeatedNodeWrapper[Any]\n    _raw_type: Type[_M] | tuple[Type[_M], ...]\n    _raw_indexes: list[int]\n")]),
+    silent('r8-twin-handler-dedupe-identity', ['C10'], [(PR, "        self._update_handlers.append(handler)\n", "        if handler not in self._update_handlers:\n            self._update_handlers.append(handler)\n")]),
+    fire('r8-handler-registered-first-only', ['C10'], [(PR, "        self._update_handlers.append(handler)\n", "        if not self._update_handlers:\n            self._update_handlers.append(handler)\n")], 'VIEW-LIVE'),
+    fire('r8-notify-splice-first-handler', ['C10'], [(PR, "        for handler in self._update_handlers:\n            handler.handle_splice(l, r, values)", "        for handler in self._update_handlers[:1]:\n            handler.handle_splice(l, r, values)")], 'VIEW-LIVE'),
+    fire('r8-values-view-by-key', ['C10'], [(MI, "class RepeatedMetaValuesView(_DictView, ValuesView[Optional[MetaValue]]):\n    def __iter__(self) -> Iterator[Optional[MetaValue]]:\n        for item in self._wrapper:\n            yield item.value\n",
+                                             "class RepeatedMetaValuesView(_DictView, ValuesView[Optional[MetaValue]]):\n    def __iter__(self) -> Iterator[Optional[MetaValue]]:\n        for item in self._wrapper:\n            yield self._wrapper[item.key]\n")], 'MAP-FIRST'),
+    fire('r8-popitem-unstripped', ['C10', 'C05'], [(MI, "    def keys(self) -> RepeatedMetaKeysView:\n", "    def popitem(self) -> tuple[str, Optional[MetaValue]]:\n        if not len(self):\n            raise KeyError('popitem(): mapping is empty')\n        item = super().pop()\n        return item.key, item.value\n\n    def keys(self) -> RepeatedMetaKeysView:\n")], 'MAP-FIRST'),
+    silent('r8-twin-popitem-through-pop', ['C10', 'C05'], [(MI, "    def keys(self) -> RepeatedMetaKeysView:\n", "    def popitem(self) -> tuple[str, Optional[MetaValue]]:\n        if not len(self):\n            raise KeyError('popitem(): mapping is empty')\n        key = super().__getitem__(-1).key\n        last = len(self) - 1\n        item = super().pop(last)\n        value = item.value\n        if isinstance(value, base.RawModel) and value.token_store:\n            if prev := value.token_store.get_prev(value.first_token):\n                value.token_store.remove(item.first_token, prev)\n            if next := value.token_store.get_next(value.last_token):\n                value.token_store.remove(next, item.last_token)\n        return key, value\n\n    def keys(self) -> RepeatedMetaKeysView:\n")]),
+    fire('r8-deepcopy-skips-unclaimed', ['C11'], [(BA, "        return cast(_T, self._map[id(token)])", "        return cast(_T, self._map.get(id(token), token))"),
+                                                  (BA, "            token_map[id(token)] = new_token\n", "            if getattr(token, 'claimed', True):\n                token_map[id(token)] = new_token\n")], 'COPY-STORE'),
+    silent('r8-twin-transformer-get', ['C11'], [(BA, "        return cast(_T, self._map[id(token)])", "        return cast(_T, self._map.get(id(token), token))")]),
+    fire('r8-meta-from-value-exact-type', ['C09', 'C15'], [(MVI, "    match value:\n        case str():\n            return EscapedString.from_value(value)\n        case datetime.date():\n            return Date.from_value(value)\n        case decimal.Decimal():\n            return NumberExpr.from_value(value)\n        case bool():\n            return Bool.from_value(value)\n    return value",
+                                                           "    wrap = {str: EscapedString.from_value, datetime.date: Date.from_value, decimal.Decimal: NumberExpr.from_value, bool: Bool.from_value}.get(type(value))\n    if wrap is not None:\n        return wrap(value)\n    return value")], 'META-SEM'),
+    silent('r8-twin-meta-from-value-isinstance-chain', ['C09', 'C15'], [(MVI, "    match value:\n        case str():\n            return EscapedString.from_value(value)\n        case datetime.date():\n            return Date.from_value(value)\n        case decimal.Decimal():\n            return NumberExpr.from_value(value)\n        case bool():\n            return Bool.from_value(value)\n    return value",
+                                                                        "    if isinstance(value, str):\n        return EscapedString.from_value(value)\n    if isinstance(value, datetime.date):\n        return Date.from_value(value)\n    if isinstance(value, decimal.Decimal):\n        return NumberExpr.from_value(value)\n    if isinstance(value, bool):\n        return Bool.from_value(value)\n    return value")]),
+    fire('r8-mul-from-children-adopts-store', ['C15', 'C13'], [(NM, "        tokens = []\n        for operand, op in zip(operands, ops):\n", "        if not ops:\n            operand, = operands\n            return cls(operand.token_store, operands, ops)\n        tokens = []\n        for operand, op in zip(operands, ops):\n")], 'OP-SEM'),
+    fire('r8-imuldiv-returns-new-root', ['C13'], [(NE, "        add_expr = NumberAddExpr(self.token_store, (mul_expr,), ())\n        self._number_add_expr = add_expr\n        return self\n\n    @overload\n    def __imul__", "        add_expr = NumberAddExpr(self.token_store, (mul_expr,), ())\n        return type(self)(add_expr.token_store, add_expr)\n\n    @overload\n    def __imul__")], 'OP-SEM'),
+    fire('r8-glob-include-hidden', ['C16'], [(ED, "directive.filename), recursive=True)", "directive.filename), recursive=True, include_hidden=True)")], 'ED-GLOB'),
+    silent('r8-twin-glob-hidden-false', ['C16'], [(ED, "directive.filename), recursive=True)", "directive.filename), recursive=True, include_hidden=False)")]),
+    fire('r8-block-comment-detach-claims', ['C19', 'C14'], [(BC, "    @classmethod\n    def from_value(cls, value: str, *, indent: str = '') -> Self:", "    def detach(self) -> list[base.RawTokenModel]:\n        self._claimed = True\n        return super().detach()\n\n    @classmethod\n    def from_value(cls, value: str, *, indent: str = '') -> Self:")], None),
+    silent('r8-twin-block-comment-detach-passthrough', ['C19', 'C14'], [(BC, "    @classmethod\n    def from_value(cls, value: str, *, indent: str = '') -> Self:", "    def detach(self) -> list[base.RawTokenModel]:\n        return super().detach()\n\n    @classmethod\n    def from_value(cls, value: str, *, indent: str = '') -> Self:")]),
+    fire('r8-discard-ascending-pops', ['C10', 'C03'], [(VP, "        self._raw_wrapper.drop_many(\n            i for i in self._raw_indexes if self._from_raw_type(self._raw_wrapper[i]) == value)", "        matches = [\n            i for i in self._raw_indexes if self._from_raw_type(self._raw_wrapper[i]) == value]\n        for raw_index in matches:\n            self._raw_wrapper.pop(raw_index)")], 'VIEW-SEM'),
+    silent('r8-twin-discard-descending-pops', ['C10', 'C03'], [(VP, "        self._raw_wrapper.drop_many(\n            i for i in self._raw_indexes if self._from_raw_type(self._raw_wrapper[i]) == value)", "        matches = [\n            i for i in self._raw_indexes if self._from_raw_type(self._raw_wrapper[i]) == value]\n        for raw_index in reversed(matches):\n            self._raw_wrapper.pop(raw_index)")]),
+    fire('r8-from-children-shared-separators', ['C03'], [(RP, "        tokens: list[base.RawTokenModel] = [placeholder]\n", "        tokens: list[base.RawTokenModel] = [placeholder]\n        item_separators = copy.deepcopy(separators)\n"),
+                                                         (RP, "            else:\n                tokens.extend(copy.deepcopy(separators))\n            tokens.extend(item.detach())", "            else:\n                tokens.extend(item_separators)\n            tokens.extend(item.detach())")], 'SEP-FRESH'),
+    fire('r8-find-spacing-marker-rules', ['C17'], [(SP, "    while token is not None and not token.raw_text:\n", "    while token is not None and token.RULE in frozenset({'PLACEHOLDER', 'EOL'}):\n")], 'SP-SEM'),
+    fire('r8-text-to-tokens-drops-tail', ['C17'], [(SP, "    for whitespace, newline in _SPACING_GROUP_RE.findall(text):\n        if whitespace:\n            yield Whitespace.from_raw_text(whitespace)\n        if newline:\n            yield Newline.from_raw_text(newline)\n",
+                                                    "    parts = re.split(r'(\\r*\\n)', text)\n    for blanks, line_break in zip(parts[::2], parts[1::2]):\n        if blanks:\n            yield Whitespace.from_raw_text(blanks)\n        yield Newline.from_raw_text(line_break)\n")], 'SP-ROUTE'),
+    silent('r8-twin-text-to-tokens-split', ['C17'], [(SP, "    for whitespace, newline in _SPACING_GROUP_RE.findall(text):\n        if whitespace:\n            yield Whitespace.from_raw_text(whitespace)\n        if newline:\n            yield Newline.from_raw_text(newline)\n",
+                                                      "    parts = re.split(r'(\\r*\\n)', text)\n    for blanks, line_break in zip(parts[::2], parts[1::2]):\n        if blanks:\n            yield Whitespace.from_raw_text(blanks)\n        yield Newline.from_raw_text(line_break)\n    if parts[-1]:\n        yield Whitespace.from_raw_text(parts[-1])\n")]),
 ]
